@@ -63,7 +63,7 @@ def make_history(base, cfg, r, n_commits=None, kind=None):
     h = History()
     h.cfg = cfg
     kind = kind or r.choice(["plain", "plain", "spill", "overflow_inplace", "ddl", "checkpoint_restart",
-                             "passive_checkpoint", "grow_shrink", "header_pragmas", "freelist_drain"])
+                             "passive_checkpoint", "grow_shrink", "header_pragmas", "freelist_drain", "wide_schema", "restart_after_rollback", "odd_rowids"])
     h.kind = kind
     ps = cfg["page_size"]
     if kind == "rootmove":
@@ -118,7 +118,18 @@ def make_history(base, cfg, r, n_commits=None, kind=None):
                 vals[0] = None
             con.execute(f"INSERT INTO t0 ({','.join(cols)}) VALUES ({','.join('?' * ncols)})", vals)
 
+    if kind == "wide_schema":
+        for i in range(40):
+            con.execute(f"CREATE TABLE s{i:02d} (a INTEGER, b TEXT, c BLOB /* filler {i} */)")
     con.execute("BEGIN")
+    if kind == "odd_rowids" or (kind in ("plain", "overflow_inplace", "passive_checkpoint") and r.random() < 0.7):
+        # legal but unusual row ids: 0 and negative ones
+        for rid in (0, -1, -(2 ** 40)):
+            vals = [F.rand_value(r, ps, big=False) for _ in cols]
+            if alias:
+                con.execute(f"INSERT INTO t0 ({','.join(cols)}) VALUES ({','.join('?' * ncols)})", [rid] + vals[1:])
+            else:
+                con.execute(f"INSERT INTO t0 (rowid,{','.join(cols)}) VALUES (?,{','.join('?' * ncols)})", [rid] + vals)
     ins(base_rows, big=r.random() < 0.5 and kind != "rootmove")
     if kind == "overflow_inplace":
         for _ in range(3):
@@ -138,14 +149,14 @@ def make_history(base, cfg, r, n_commits=None, kind=None):
     stale_generation = False
     for k in range(n_commits):
         op = kind
-        if kind in ("plain", "checkpoint_restart", "passive_checkpoint", "grow_shrink", "fresh_wal"):
+        if kind in ("plain", "checkpoint_restart", "restart_after_rollback", "passive_checkpoint", "grow_shrink", "fresh_wal"):
             op = r.choice(["insert", "update", "delete", "mixed"])
         con.execute("BEGIN")
         ids = [x[0] for x in con.execute("SELECT rowid FROM t0")]
         if op == "insert" or not ids:
             ins(r.randint(1, 30), big=r.random() < 0.3)
         elif op == "update":
-            for rid in r.sample(ids, min(len(ids), r.randint(1, 8))):
+            for rid in r.sample(ids, min(len(ids), r.randint(1, 8))) + ([0] if 0 in ids else []):
                 c = r.choice(cols[1:])
                 con.execute(f"UPDATE t0 SET {c}=? WHERE rowid=?", (F.rand_value(r, ps, big=r.random() < 0.3), rid))
         elif op == "delete":
@@ -188,6 +199,32 @@ def make_history(base, cfg, r, n_commits=None, kind=None):
                     con.execute(f"DROP TABLE {victims[0]}")
                 else:
                     ins(3)
+        elif op == "wide_schema":
+            # the schema b-tree has an interior root: DDL that edits a row on a left leaf leaves page 1 untouched
+            step = k % 3
+            if step == 0:
+                con.execute(f"ALTER TABLE s{k + 3:02d} RENAME TO u{k + 3:02d}")
+            elif step == 1:
+                con.execute(f"DROP TABLE s{k + 10:02d}")
+            else:
+                con.execute(f"CREATE TABLE n{k} (a, b)")
+        elif op == "odd_rowids":
+            # row ids 0, -1, -(2**40): update, delete and re-insert them
+            c = cols[-1]
+            step = k % 4
+            if step == 0:
+                con.execute(f"UPDATE t0 SET {c}=? WHERE rowid IN (0, -1)", (F.rand_value(r, ps, big=False),))
+            elif step == 1:
+                con.execute("DELETE FROM t0 WHERE rowid IN (0, ?)", (-(2 ** 40),))
+                ins(2)
+            elif step == 2:
+                vals = [F.rand_value(r, ps, big=False) for _ in cols]
+                if alias:
+                    con.execute(f"INSERT OR REPLACE INTO t0 ({','.join(cols)}) VALUES ({','.join('?' * ncols)})", [0] + vals[1:])
+                else:
+                    con.execute(f"INSERT OR REPLACE INTO t0 (rowid,{','.join(cols)}) VALUES (?,{','.join('?' * ncols)})", [0] + vals)
+            else:
+                con.execute(f"UPDATE t0 SET {c}=? WHERE rowid <= 0", (F.rand_value(r, ps, big=False),))
         elif op == "freelist_drain":
             # a freelist that appears inside the log and is later used up completely (trunk pointer N -> 0)
             if k % 3 == 0:
@@ -237,7 +274,16 @@ def make_history(base, cfg, r, n_commits=None, kind=None):
         else:
             h.events.append(op + ":no-frames")
         wal_size = now
-        if kind == "checkpoint_restart" and k == n_commits // 2 and not stale_generation and k + 1 < n_commits:
+        if kind in ("checkpoint_restart", "restart_after_rollback") and k == n_commits // 2 and not stale_generation and k + 1 < n_commits:
+            if kind == "restart_after_rollback":
+                # the old generation ends in a transaction that spilled the page cache and was rolled back: its
+                # frames stay at the end of the file, uncommitted, and the shorter new generation never reaches them
+                con.execute("PRAGMA cache_size=5")
+                con.execute("BEGIN")
+                ins(400)
+                con.execute("ROLLBACK")
+                con.execute("PRAGMA cache_size=-2000")
+                h.events.append("spill+rollback")
             # checkpoint everything; the next write restarts the WAL and leaves stale frames behind
             con.execute("PRAGMA wal_checkpoint(FULL)")
             stale_generation = True
